@@ -367,7 +367,48 @@ func (u *Unit) resolveType(name string) types.Type {
 }
 
 // selectField: x.name on structured values, event records, pointers.
+// renamedField: a contract expression that selects a field the struct no longer has follows a rename when the
+// struct leaves no choice (it has one field only), or when the engine paired the stale declaration with a new field.
+func (u *Unit) renamedField(t types.Type, name string) string {
+	if t == nil {
+		return name
+	}
+	if pt, ok := t.Underlying().(*types.Pointer); ok {
+		t = pt.Elem()
+	}
+	st, ok := t.Underlying().(*types.Struct)
+	if !ok {
+		return name
+	}
+	for i := 0; i < st.NumFields(); i++ {
+		if st.Field(i).Name() == name {
+			return name
+		}
+	}
+	if fd, ok := u.eng.cs.Fields[structRootName(t)+"."+name]; ok && fd.Class == "ghost" {
+		return name
+	}
+	if nn, ok := u.eng.fieldRenames[structRootName(t)+"."+name]; ok {
+		return nn
+	}
+	if st.NumFields() == 1 {
+		u.eng.noteFieldRename(structRootName(t)+"."+name, st.Field(0).Name())
+		return st.Field(0).Name()
+	}
+	return name
+}
+
 func (u *Unit) selectField(env *Env, x Val, name string, e *Expr) Val {
+	switch v := x.(type) {
+	case *StructV:
+		name = u.renamedField(v.Typ, name)
+	case *PtrV:
+		if v.Cell == nil {
+			name = u.renamedField(v.Elem, name)
+		}
+	case *Scalar:
+		name = u.renamedField(v.Typ, name)
+	}
 	switch v := x.(type) {
 	case *EventV:
 		if f, ok := v.F[name]; ok && f != nil {
